@@ -201,7 +201,7 @@ func traceLine(work, line string, lineNo int, r *rng, waterEvery int) {
 				}
 				// C02 "plus N in irrigation water": with irrigation from file the soil gains exactly amount x concentration
 				// of the file's entry for THIS date (read here independently of the model's reader)
-				if irrFile != nil {
+				if irrFile != nil && !g.AUTOIRRI { // with automatic irrigation the file is not read
 					if irrByZeit == nil {
 						irrByZeit = map[int][2]float64{}
 						for dateText, v := range irrFile {
